@@ -23,8 +23,10 @@ SameOut(a, b) == /\ LET wa == Proj(a, {"write"}) wb == Proj(b, {"write"}) IN
 TNext == /\ l <= Len(Tr)
          /\ LET e == Tr[l] IN
               \/ /\ e.a = "rx"
-                 /\ LET r == RxBytes([rx EXCEPT !.out = <<>>], e.bytes) IN
-                      SameOut(e.out, r.out) /\ rx' = r
+                 /\ IF "odd" \in DOMAIN e      \* the stream holds DATA candidates of a length outside 3 .. 128 (either handling, see AshRx)
+                    THEN \E r \in RxBytesAlts([rx EXCEPT !.out = <<>>], e.bytes) : SameOut(e.out, r.out) /\ rx' = r
+                    ELSE LET r == RxBytes([rx EXCEPT !.out = <<>>], e.bytes) IN
+                           SameOut(e.out, r.out) /\ rx' = r
               \/ /\ e.a = "mem"        \* e.fed bytes of flag-free garbage in reads of e.chunk bytes
                  /\ e.peak <= 4 * (MaxBuf + e.chunk) + 65536
                  /\ e.held <= 4 * (MaxBuf + e.chunk) + 65536
